@@ -196,57 +196,64 @@ def unextract_variables(trees, report):
                 _try_unextract(fnode, name, rel, q, report)
 
 
-def _try_unextract(fnode, name, rel, q, report):
-    pm = _parents(fnode)
-    order = _order(fnode)
-    stores = [n for n in ast.walk(fnode) if isinstance(n, ast.Name) and n.id == name and isinstance(n.ctx, (ast.Store, ast.Del))]
-    if len(stores) != 1:
-        return
-    asg = pm.get(id(stores[0]))
-    if not (isinstance(asg, ast.Assign) and len(asg.targets) == 1 and asg.targets[0] is stores[0]) and not (isinstance(asg, ast.AnnAssign) and asg.target is stores[0] and asg.value is not None):
-        return
-    value = asg.value
-    if not _pure(value):
-        _try_unextract_single_use(fnode, name, asg, pm, rel, q, report)
-        return
-    # the assignment must be a statement of the function's own scope (not a nested function / loop that repeats it is fine)
-    reads = [n for n in ast.walk(fnode) if isinstance(n, ast.Name) and n.id == name and isinstance(n.ctx, ast.Load)]
-    if not reads:
-        return
-    if any(order[id(rd)] < order[id(asg)] for rd in reads):
-        return
-    # inputs are not rebound after the assignment
-    inputs = {n.id for n in ast.walk(value) if isinstance(n, ast.Name)}
-    for n in ast.walk(fnode):
-        if isinstance(n, ast.Name) and n.id in inputs and isinstance(n.ctx, (ast.Store, ast.Del)) and order[id(n)] > order[id(asg)]:
-            return
-        if isinstance(n, ast.arg) and n.arg in inputs and order[id(n)] > order[id(asg)]:
-            return
-    # the block holding the assignment encloses every read
-    blk = pm.get(id(asg))
-    for rd in reads:
-        x = rd
-        while x is not None and x is not blk:
-            x = pm.get(id(x))
-        if x is None:
-            return
-    # reads inside loops that start after the assignment would re-evaluate: fine for pure inputs not rebound
-    if _mutable_display(value) and len(reads) > 1:
-        for i, a in enumerate(reads):
-            for b in reads[i + 1:]:
-                if not _exclusive(a, b, pm):
-                    return
-    for rd in reads:
-        new = copy.deepcopy(value)
-        for x in ast.walk(new):
-            ast.copy_location(x, rd)
-        _replace(pm[id(rd)], rd, new)
+def _block_of(pm, stmt):
+    blk = pm.get(id(stmt))
     for f in ("body", "orelse", "finalbody"):
         lst = getattr(blk, f, None)
-        if isinstance(lst, list) and asg in lst:
-            lst.remove(asg)
-            if not lst:
-                lst.append(ast.copy_location(ast.Pass(), asg))
+        if isinstance(lst, list) and any(x is stmt for x in lst):
+            return blk, f, lst
+    return None, None, None
+
+
+def _try_unextract(fnode, name, rel, q, report):
+    """every store of `name` is `name = <pure>` in some block and the reads of `name` are exactly the reads that
+    follow those stores inside their blocks: each read is replaced by the value of the store that covers it"""
+    pm = _parents(fnode)
+    stores = [n for n in ast.walk(fnode) if isinstance(n, ast.Name) and n.id == name and isinstance(n.ctx, (ast.Store, ast.Del))]
+    reads = [n for n in ast.walk(fnode) if isinstance(n, ast.Name) and n.id == name and isinstance(n.ctx, ast.Load)]
+    if not stores or not reads:
+        return
+    plans = []
+    covered = set()
+    for st in stores:
+        asg = pm.get(id(st))
+        if not ((isinstance(asg, ast.Assign) and len(asg.targets) == 1 and asg.targets[0] is st) or (isinstance(asg, ast.AnnAssign) and asg.target is st and asg.value is not None)):
+            return
+        blk, field, lst = _block_of(pm, asg)
+        if lst is None:
+            return
+        i = next(k for k, x in enumerate(lst) if x is asg)
+        rest = lst[i + 1:]
+        if not _pure(asg.value):
+            if len(stores) == 1:
+                _try_unextract_single_use(fnode, name, asg, pm, rel, q, report)
+            return
+        inside = [n for s_ in rest for n in ast.walk(s_)]
+        if any(isinstance(n, ast.Name) and n.id == name and isinstance(n.ctx, (ast.Store, ast.Del)) for n in inside):
+            return
+        inputs = {n.id for n in ast.walk(asg.value) if isinstance(n, ast.Name)}
+        if any((isinstance(n, ast.Name) and n.id in inputs and isinstance(n.ctx, (ast.Store, ast.Del))) or (isinstance(n, ast.arg) and n.arg in inputs) for n in inside):
+            return
+        # a loop around the block would carry the value to reads placed before the store
+        mine = [n for n in inside if isinstance(n, ast.Name) and n.id == name and isinstance(n.ctx, ast.Load)]
+        if _mutable_display(asg.value) and len(mine) > 1:
+            for a_i, a_ in enumerate(mine):
+                for b_ in mine[a_i + 1:]:
+                    if not _exclusive(a_, b_, pm):
+                        return
+        plans.append((asg, lst, mine))
+        covered |= {id(n) for n in mine}
+    if covered != {id(n) for n in reads}:
+        return
+    for asg, lst, mine in plans:
+        for rd in mine:
+            new = copy.deepcopy(asg.value)
+            for x in ast.walk(new):
+                ast.copy_location(x, rd)
+            _replace(pm[id(rd)], rd, new)
+        lst.remove(asg)
+        if not lst:
+            lst.append(ast.copy_location(ast.Pass(), asg))
     report.append(("unextracted-variable", f"{rel}:{q}:{name}"))
 
 
